@@ -633,7 +633,13 @@ pub fn run_case(c: &Case, tolerated: &[String]) -> Report {
             verdict = Some((format!("O4-blocked-after-stop:{first}"), format!("the crash-free run ends in state {}, the run stopped at {:?} ends blocked by an epoch gap (manual repair needed)", tw.final_state, out.fired)));
         }
     }
-    if verdict.is_none() {
+    let unsettled = out.labels.contains("artifact-task-not-settled") || tw.labels.contains("artifact-task-not-settled");
+    if unsettled {
+        // the background artifact task of some cycle was still running when the harness stopped waiting for it (machine
+        // overload): what the run holds at its end is then a matter of timing, not of the code - nothing is concluded
+        rep.label("progress-not-judged:artifact-task-not-settled");
+    }
+    if verdict.is_none() && !unsettled {
         let mut judged = 0;
         for t in &tw.final_types {
             if tw.certified.contains(t) {
